@@ -165,6 +165,10 @@ func behaviourCheck(c *Ctx, n int, mk func(r *rand.Rand, i int) (*cfg.Config, []
 				mode = 4 + (i/2)%2 // 7 or 12 files
 			}
 			u.Files = gen.Split(rand.New(rand.NewSource(c.Seed*31337+int64(i))), conf, mode)
+			if i%8 == 7 {
+				// four files found by one wildcard, with decoys: the order in which they are merged decides
+				u.Files, u.Patterns = gen.GlobLayout(rand.New(rand.NewSource(c.Seed*31337+int64(i))), conf)
+			}
 		}
 		units = append(units, u)
 	}
@@ -202,7 +206,7 @@ func behaviourUnits(c *Ctx, lab *probe.Lab, units []*probe.Unit, nontrivial func
 		}
 		if u.ProbeErr != "" && len(u.Results) == 0 {
 			c.Add("probe_failures", 1)
-			c.Side("C01", "probe:"+sigWords(u.ProbeErr), fmt.Sprintf("unit %s: %s", u.ID, u.ProbeErr), unitFiles(u))
+			c.Violate("probe:"+sigWords(u.ProbeErr), fmt.Sprintf("unit %s: %s", u.ID, u.ProbeErr), unitFiles(u))
 			continue
 		}
 		exp := RunModel(u.Cfg, u.Ops, nil)
@@ -304,16 +308,19 @@ var shadowNames = map[string][]string{
 	"constructor": {"newService", "c", "getParam", "dependencyService", "rootGontainer"},
 	"decorator":   {"s", "dependencyValue", "callProvider", "dependencyTag"},
 	"function":    {"getEnv", "getEnvInt", "paramTodo", "concatenateChunks", "dependencyProvider"},
+	"type":        {"ctx", "err", "result", "service", "ok"},
 }
 
 // shadowUnits builds, for every such name, a small configuration that uses it (unqualified, i.e. from the current package) and
 // the twin that uses the canonical fixture symbol; both must behave the same.
 func shadowUnits() (units []*probe.Unit, twins []*cfg.Config, labels []string) {
-	canon := map[string]string{"constructor": "New", "decorator": "DecSame", "function": "Fn"}
+	canon := map[string]string{"constructor": "New", "decorator": "DecSame", "function": "Fn", "type": "Obj"}
 	mk := func(role, name string) *cfg.Config {
 		conf := &cfg.Config{Meta: cfg.Meta{Pkg: cfg.P("gen")}}
-		ctor, dec, fn := "New", "DecSame", "Fn"
+		ctor, dec, fn, typ := "New", "DecSame", "Fn", "Obj"
 		switch role {
+		case "type":
+			typ = name
 		case "constructor":
 			ctor = name
 		case "decorator":
@@ -327,15 +334,17 @@ func shadowUnits() (units []*probe.Unit, twins []*cfg.Config, labels []string) {
 			{Name: "a", Constructor: cfg.P(ctor), Args: []cfg.Val{cfg.Str("%p%"), cfg.Int(7)}, Tags: []cfg.Tag{{Name: "t"}}},
 			{Name: "b", Constructor: cfg.P(ctor), Args: []cfg.Val{cfg.Str("@a"), cfg.Str("%q%")}},
 			{Name: "noargs", Constructor: cfg.P(ctor)},
+			{Name: "typed", Constructor: cfg.P(ctor), Type: cfg.P("*" + typ), Getter: cfg.P("GetTyped"), MustGetter: cfg.P(true)},
 		}
 		conf.Decorators = []cfg.Decorator{{Tag: "t", Decorator: dec, Args: []cfg.Val{cfg.Int(1)}}}
 		return conf
 	}
 	i := 0
-	for _, role := range []string{"constructor", "decorator", "function"} {
+	for _, role := range []string{"constructor", "decorator", "function", "type"} {
 		for _, name := range shadowNames[role] {
 			conf := mk(role, name)
-			ops := []probe.Op{{Op: "new"}, {Op: "param", Name: "p"}, {Op: "param", Name: "q"}, {Op: "get", Name: "a"}, {Op: "get", Name: "b"}, {Op: "get", Name: "noargs"}, {Op: "tagged", Name: "t"}}
+			ops := []probe.Op{{Op: "new"}, {Op: "param", Name: "p"}, {Op: "param", Name: "q"}, {Op: "get", Name: "a"}, {Op: "get", Name: "b"}, {Op: "get", Name: "noargs"}, {Op: "tagged", Name: "t"},
+				{Op: "getter", Name: "GetTyped"}, {Op: "getterctx", Name: "GetTypedInContext", Ctx: 1}, {Op: "getter", Name: "MustGetTyped"}, {Op: "getterctx", Name: "MustGetTypedInContext", Ctx: 2}}
 			units = append(units, &probe.Unit{ID: fmt.Sprintf("h%04d", i), Cfg: conf, Files: []probe.File{{Name: "gontainer.yaml", Content: conf.YAML()}}, Ops: ops})
 			twins = append(twins, mk(role, canon[role]))
 			labels = append(labels, role+":"+name)
@@ -373,18 +382,10 @@ func judgeShadowUnits(c *Ctx, units []*probe.Unit, twins []*cfg.Config, labels [
 	}
 }
 
-// rejected handles a generated configuration (inside the documented language) that the tool rejects. Whose business that is
-// depends on the step that rejected it: the scope rule is C05's, cycles are C07's, missing references C06's; anything else is
-// the grammar's (C11). In the check of another property there was simply nothing to observe.
+// rejected handles a generated configuration that the tool rejects. The generators only emit configurations inside the documented
+// language and inside each property's proviso, and the property at hand promises a behaviour of the generated container for
+// them; a tool that refuses such a configuration delivers none of it, so this is reported as a violation of the property whose
+// workload it is (the same holds for generated code that cannot be built or started).
 func rejected(c *Ctx, reason, what string, files map[string]string) {
-	owner := "C11"
-	switch {
-	case strings.Contains(reason, "ValidateServicesScopes"):
-		owner = "C05"
-	case strings.Contains(reason, "ValidateCircularDeps") || strings.Contains(reason, "ircular"):
-		owner = "C07"
-	case strings.Contains(reason, "ValidateParamsExist") || strings.Contains(reason, "ValidateServicesExist"):
-		owner = "C06"
-	}
-	c.Side(owner, "generator-config-rejected:"+sigWords(reason), what, files)
+	c.Violate("generator-config-rejected:"+sigWords(reason), what, files)
 }
